@@ -34,6 +34,9 @@ META = {
 COSTS = [('economics.totalcapcost', 0, 1000), ('economics.oamtotalfixed', 0, 100), ('economics.TotalGrant', -1000, 1000),
          ('economics.OtherIncentives', -1000, 1000), ('economics.FlatLicenseEtc', -1000, 1000), ('economics.AnnualLicenseEtc', -1000, 1000),
          ('economics.TaxRelief', 0, 100), ('surfaceplant.electricity_cost_to_buy', 0, 1), ('economics.ngprice', 0, 1)]
+# component costs the user may state as well (with the totals stated they do not enter the totals, but they ARE cost inputs: all are scaled)
+COMPONENTS = ['ccstimfixed', 'ccexplfixed', 'ccgathfixed', 'ccplantfixed', 'oamwellfixed', 'oamplantfixed', 'oamwaterfixed']
+COSTS += [(f'economics.{c_}', 0, 200) for c_ in COMPONENTS]
 LEV = ['LCOE', 'LCOH', 'LCOC']
 
 
@@ -63,6 +66,9 @@ def drive(cfg, vals, symbolic):
     v.update(c04.FIXED)
     v['economics.PTCDuration'] = cfg['L']      # (a credit lasting longer than the plant raises IndexError on the pinned tree: robustness, not C11)
     v['surfaceplant.piping_length'] = 5.0      # a transmission pipeline is present (its correlation cost is not a cost input: totals are user-fixed)
+    for c_ in COMPONENTS:
+        v[f'economics.{c_}.Valid'] = True
+        v[f'economics.{c_}.Provided'] = True
     econ.install(m, v)
     econ.run_econ(m, symbolic=symbolic)
     return m
